@@ -9,7 +9,7 @@
 From Coq Require Import Init.Byte ZArith List Bool.
 Require Import Ojg.Base.Bytes Ojg.Base.Jv Ojg.Json.Number Ojg.Json.NumberFacts.
 Require Import Ojg.Json.Machine Ojg.Json.Ref Ojg.Json.RefParse Ojg.Json.Sweep Ojg.Json.DataInv Ojg.Json.Frontends.
-Require Import Ojg.Json.Sweep_parser Ojg.Json.Sweep_gen Ojg.Json.DSweeps Ojg.Json.ValueSim Ojg.Json.ValueSimSweeps Ojg.Json.IntLit.
+Require Import Ojg.Json.Sweep_parser Ojg.Json.Sweep_gen Ojg.Json.DSweeps Ojg.Json.ValueSim Ojg.Json.ValueSimSweeps Ojg.Json.IntLit Ojg.Json.Fmt Ojg.Json.Dec.
 Import ListNotations.
 Open Scope Z_scope.
 
@@ -86,3 +86,20 @@ Theorem C02_int_literal_neg : forall d1 ds,
 Proof. exact int_literal_neg. Qed.
 Print Assumptions C02_int_literal_plain.
 Print Assumptions C02_int_literal_neg.
+
+(* decimal literals  [-] int . frac  (no exponent, at most 18 fraction digits): the leaf is a float
+   whose text is the literal itself; the delivered float64 is strconv.ParseFloat of that text
+   (gen.Number.AsNum), so it is the float64 nearest to the literal *)
+Theorem C02_dec_literal_plain : forall d1 ds fr,
+  is_19 d1 = true -> all_digits ds -> digits_val (d1 :: ds) < 9223372036854775800 -> frac_ok fr ->
+  tr fe_parser (JBig ((d1 :: ds) ++ x2e :: fr)) = JFloat ((d1 :: ds) ++ x2e :: fr).
+Proof. exact dec_literal_plain. Qed.
+Theorem C02_dec_literal_zero : forall fr, frac_ok fr ->
+  tr fe_parser (JBig (x30 :: x2e :: fr)) = JFloat (x30 :: x2e :: fr).
+Proof. exact dec_literal_zero. Qed.
+Theorem C02_dec_literal_neg : forall d1 ds fr,
+  is_19 d1 = true -> all_digits ds -> digits_val (d1 :: ds) <= max_int64 -> frac_ok fr ->
+  tr fe_parser (JBig (x2d :: (d1 :: ds) ++ x2e :: fr)) = JFloat (x2d :: (d1 :: ds) ++ x2e :: fr).
+Proof. exact dec_literal_neg. Qed.
+Print Assumptions C02_dec_literal_plain.
+Print Assumptions C02_dec_literal_neg.
